@@ -79,7 +79,7 @@ class Checker:
 
     # -- finishing ----------------------------------------------------------
     def finish(self, explanation: str, status: int = None, error: str = None) -> int:
-        ev_dir = os.path.join(VERIF, "evidence")
+        ev_dir = os.environ.get("VERIF_EVIDENCE_DIR") or os.path.join(VERIF, "evidence")
         os.makedirs(ev_dir, exist_ok=True)
         vio_dir = os.path.join(ev_dir, "violations")
         lines = []
